@@ -37,6 +37,7 @@ class Adversary:
         all        every call expires
         count      only the counting of all matrices expires
         nonlazy    everything expires except instantiating a lazy encoder
+        lazy       instantiating a lazy (or pattern) encoder expires, nothing else does
         mask:<n>   call i expires iff bit (i mod 24) of n is set"""
 
     def __init__(self, spec):
@@ -57,6 +58,8 @@ class Adversary:
             expire = getattr(func, '__name__', '') == '<lambda>'
         elif spec == 'nonlazy':
             expire = not (is_inst and isinstance(args[0], LazyEncoder))
+        elif spec == 'lazy':
+            expire = is_inst and isinstance(args[0], LazyEncoder)
         else:
             expire = bool((int(spec.split(':')[1]) >> (i % 24)) & 1)
         if expire:
